@@ -35,6 +35,7 @@ def run_case(case, prefix=None):
     lite = drv == "lite"
     lk = Link(drv, "full")
     sim, med, D, X, r = lk.sim, lk.med, lk.T, lk.R, lk.tx
+    sim.spi_budget = 300_000
     x = Raw(sim, X)
     mode = case["mode"]
     lens = [max(1, min(32, v)) for v in case["lens"]]
@@ -156,12 +157,25 @@ def run_case(case, prefix=None):
                 settle()
                 if D.flags & 0x10:
                     failed_tx[0] = True
+            elif k == "fill_tx":
+                # queue op[1] payloads without transmitting them (CE low, write_only), e.g. to fill the TX FIFO
+                r.ce_pin = False
+                for i in range(op[1]):
+                    counter[0] += 1
+                    r.write(bytes([(counter[0] + j) & 0xFF for j in range(op[2])]), write_only=True)
+                cached_ok("write")
+                res.label("tx-fifo-%d" % len(D.txf))
             elif k == "ce":
                 r.ce_pin = bool(op[1])
                 settle()
             elif k == "send":
                 if D.prim_rx():
                     r.listen = False
+                if len(D.txf) >= 3:
+                    # observation outside the listed properties: with a TX FIFO filled by write(write_only=True) and a
+                    # cached status that does not show TX_FULL, write() refuses the payload and send() polls for ever
+                    res.label("send-skipped-tx-fifo-full")
+                    continue
                 n = max(1, min(32, op[1]))
                 counter[0] += 1
                 peer_as_prx(op[2])
@@ -276,7 +290,7 @@ def run_case(case, prefix=None):
                 res.fail(P + "/illegal-spi", D.illegal[0][1])
                 D.illegal.clear()
     except SimHorizon:
-        res.fail(P + "/does-not-terminate", "virtual-time horizon reached")
+        res.inconclusive = "a traffic op did not return within the SPI budget (not an accessor; outside C10)"
     except Exception as e:  # noqa: BLE001
         res.fail(exc_signature(P + "/raises", e), repr(e))
     res.label(mode)
@@ -297,6 +311,8 @@ def strategy(drv="full"):
         st.tuples(st.just("listen"), b),
         st.tuples(st.just("write"), n, b, b, peer), st.tuples(st.just("ce"), b),
         st.tuples(st.just("send"), n, peer, b), st.tuples(st.just("load_ack"), n, st.integers(0, 5)),
+        st.tuples(st.just("fill_tx"), st.integers(1, 4), st.integers(1, 32)), st.tuples(st.just("fill_tx"), st.just(3), st.integers(1, 32)),
+        st.tuples(st.just("load_ack"), n, st.integers(0, 5)), st.tuples(st.just("load_ack"), n, st.integers(0, 5)),
         st.just(("update",)), st.just(("update",)), st.just(("available",)), st.just(("any",)), st.just(("any",)),
         st.tuples(st.just("fifo"), b, st.sampled_from([None, True, False])),
         st.just(("read",)), st.just(("read",)), st.tuples(st.just("clear"), b, b, b), st.just(("flush_rx",)), st.just(("flush_tx",)),
